@@ -48,6 +48,9 @@ PROP = {
         {"name": "main", "post": _post},
         # the unsafe surface below the CRAM writer/reader is zlib-rs / bzip2 / lzma: same workload, reduced
         {"name": "asan", "variant": "asan", "args": ["inproc=1", "cases=300", "big=0"], "tiers": ("thorough",), "optional": True, "timeout": 3600},
-        {"name": "miri", "variant": "miri", "args": ["inproc=1", "tiny=1"], "tiers": ("thorough",), "optional": True, "timeout": 7200},
+        # No Miri stage: every CRAM file starts with a gzip'ed header block and Miri (Stacked and Tree Borrows
+        # alike) stops in zlib-rs 0.6.7 `<Deflate as Drop>::drop` -> `deflate::end` ("deallocating while item is
+        # strongly protected") at the first drop of a deflate stream, before any CRAM code of interest runs.
+        # `c07 inproc=1 tiny=1` (six tiny files) is kept in the binary for the day the dependency is fixed.
     ],
 }
